@@ -65,7 +65,7 @@ def c30Step (st : C30St) (op impl : String) : C30St × String × String :=
   | ["rewind"] =>
     if !st.alive then (st, "no-allocator", "ok") else (st, "ok", if impl == "ok" then "ok" else "viol:unparseable-output")
   | ["floor", mode, d] =>
-    if (mode != "rel" && mode != "gen") || ((pN d).isNone && !(d.startsWith "-" && (pN (d.drop 1).toString).isSome)) then bad else
+    if (mode != "rel" && mode != "gen" && mode != "abs" && mode != "genmax") || (mode == "abs" && (pN d).isNone) || ((pN d).isNone && !(d.startsWith "-" && (pN (d.drop 1).toString).isSome)) then bad else
     if !st.alive then (st, "no-allocator", "ok") else
     match fields impl with
     | [f, res, fl] =>
